@@ -3,6 +3,8 @@ package main
 
 import (
 	"fmt"
+	"io"
+	"log"
 	"os"
 
 	"verif/checks"
@@ -14,6 +16,7 @@ func main() {
 		fmt.Fprintln(os.Stderr, "usage: pcheck <ID> <quick|thorough> | pcheck replay <file>")
 		os.Exit(2)
 	}
+	log.SetOutput(io.Discard) // x/did logs "[warn] unknown key type" through the std logger
 	code := 2
 	defer func() {
 		world.CleanScratch()
